@@ -892,44 +892,76 @@ impl<'tcx> Cx<'tcx> {
                 }
                 J::obj(vec![("tuple", J::Arr(v))])
             }
-            ty::Adt(adt, _) if adt.is_enum() => {
-                // C-like / direct-tag enums: read the tag and map it to a variant
+            ty::Adt(adt, args) if adt.is_enum() => {
+                // enums with a direct tag or a niche: find the variant, then read its fields
                 let Ok(layout) = tcx.layout_of(env.as_query_input(ty)) else {
                     return J::obj(vec![("opaque", J::str("layout"))]);
                 };
-                match &layout.variants {
-                    rustc_abi::Variants::Single { index } => {
-                        let v = adt.variant(*index);
-                        J::obj(vec![
-                            ("adt", J::str(tcx.def_path_str(adt.did()))),
-                            ("variant", J::Num(index.as_u32() as i128)),
-                            ("variant_name", J::str(v.name.to_string())),
-                        ])
+                let lcx = rustc_middle::ty::layout::LayoutCx::new(tcx, env);
+                let read_tag = |toff: u64, tsz: u64| -> u128 {
+                    let b = self.bytes(alloc, off + toff, tsz);
+                    let mut bits: u128 = 0;
+                    for (i, x) in b.iter().enumerate() {
+                        bits |= (*x as u128) << (8 * i);
                     }
-                    rustc_abi::Variants::Multiple { tag, tag_encoding: rustc_abi::TagEncoding::Direct, tag_field, .. } => {
+                    bits
+                };
+                let vi: Option<rustc_abi::VariantIdx> = match &layout.variants {
+                    rustc_abi::Variants::Single { index } => Some(*index),
+                    rustc_abi::Variants::Multiple { tag, tag_encoding, tag_field, .. } => {
                         let toff = layout.fields.offset(tag_field.as_usize()).bytes();
                         let tsz = tag.size(&tcx).bytes();
-                        let b = self.bytes(alloc, off + toff, tsz);
-                        let mut bits: u128 = 0;
-                        for (i, x) in b.iter().enumerate() {
-                            bits |= (*x as u128) << (8 * i);
-                        }
-                        for (vi, d) in adt.discriminants(tcx) {
-                            let mask: u128 = if tsz >= 16 { u128::MAX } else { (1u128 << (tsz * 8)) - 1 };
-                            if (d.val & mask) == bits {
-                                let v = adt.variant(vi);
-                                return J::obj(vec![
-                                    ("adt", J::str(tcx.def_path_str(adt.did()))),
-                                    ("variant", J::Num(vi.as_u32() as i128)),
-                                    ("variant_name", J::str(v.name.to_string())),
-                                    ("unit", J::Bool(v.fields.is_empty())),
-                                ]);
+                        let bits = read_tag(toff, tsz);
+                        let mask: u128 = if tsz >= 16 { u128::MAX } else { (1u128 << (tsz * 8)) - 1 };
+                        match tag_encoding {
+                            rustc_abi::TagEncoding::Direct => {
+                                let mut found = None;
+                                for (v, d) in adt.discriminants(tcx) {
+                                    if (d.val & mask) == bits {
+                                        found = Some(v);
+                                    }
+                                }
+                                found
+                            }
+                            rustc_abi::TagEncoding::Niche { untagged_variant, niche_variants, niche_start } => {
+                                let rel = bits.wrapping_sub(*niche_start) & mask;
+                                let lo = niche_variants.start().as_u32() as u128;
+                                let hi = niche_variants.end().as_u32() as u128;
+                                if rel <= hi - lo {
+                                    Some(rustc_abi::VariantIdx::from_u32((lo + rel) as u32))
+                                } else {
+                                    Some(*untagged_variant)
+                                }
                             }
                         }
-                        J::obj(vec![("opaque", J::str(format!("{}", ty)))])
                     }
-                    _ => J::obj(vec![("opaque", J::str(format!("{}", ty)))]),
+                    _ => None,
+                };
+                let Some(vi) = vi else {
+                    return J::obj(vec![("opaque", J::str(format!("{}", ty)))]);
+                };
+                let v = adt.variant(vi);
+                let vlayout = layout.for_variant(&lcx, vi);
+                let mut fields = Vec::new();
+                let mut names = Vec::new();
+                let mut tys = Vec::new();
+                for (i, f) in v.fields.iter().enumerate() {
+                    names.push(J::str(f.name.to_string()));
+                    let fty = f.ty(tcx, args);
+                    let fty = tcx.try_normalize_erasing_regions(env, rustc_middle::ty::Unnormalized::new_wip(fty)).unwrap_or(fty);
+                    let fo = vlayout.fields.offset(i).bytes();
+                    tys.push(J::str(format!("{}", fty)));
+                    fields.push(self.read_mem(alloc, off + fo, fty, None, depth + 1));
                 }
+                J::obj(vec![
+                    ("names", J::Arr(names)),
+                    ("tys", J::Arr(tys)),
+                    ("adt", J::str(tcx.def_path_str(adt.did()))),
+                    ("variant", J::Num(vi.as_u32() as i128)),
+                    ("variant_name", J::str(v.name.to_string())),
+                    ("unit", J::Bool(v.fields.is_empty())),
+                    ("fields", J::Arr(fields)),
+                ])
             }
             _ => J::obj(vec![("opaque", J::str(format!("{}", ty)))]),
         }
